@@ -8,12 +8,15 @@ import (
 	"fmt"
 	"os"
 	"path/filepath"
+	"runtime/pprof"
 	"sort"
 	"strconv"
 	"strings"
 	"sync"
 	"time"
 )
+
+var stopProf = func() {}
 
 // Root is /verif (overridable for tests).
 var Root = func() string {
@@ -89,6 +92,12 @@ func New(id, level string) *Run {
 		}
 	}
 	r.deadline = r.start.Add(budget)
+	if p := os.Getenv("VERIF_CPUPROF"); p != "" {
+		if f, err := os.Create(fmt.Sprintf("%s.%d", p, os.Getpid())); err == nil {
+			pprof.StartCPUProfile(f)
+			stopProf = pprof.StopCPUProfile
+		}
+	}
 	if s := os.Getenv("VERIF_DEADLINE_UNIX"); s != "" {
 		if n, err := strconv.ParseInt(s, 10, 64); err == nil {
 			r.deadline = time.Unix(n, 0)
@@ -180,7 +189,12 @@ func (r *Run) Violation(sig, what string, replay any) bool {
 	r.mu.Lock()
 	defer r.mu.Unlock()
 	if r.shardViol != nil {
-		if len(r.shardViol) < 50 {
+		for _, v := range r.shardViol {
+			if v.Sig == sig {
+				return true // one representative per signature is forwarded to the parent
+			}
+		}
+		if len(r.shardViol) < 200 {
 			r.shardViol = append(r.shardViol, pviol{sig, what, replay})
 		}
 		return true
